@@ -133,6 +133,34 @@ impl SizeClass {
     }
 }
 
+/// Characters whose encoded form starts like a BOM: U+FEFF itself (UTF-8: EF BB BF; UTF-16: the
+/// BOM), U+FFFE (the other UTF-16 BOM, byte-swapped), U+BBEF U+00BF (UTF-16LE: EF BB BF 00),
+/// U+EFBB U+BF41 (UTF-16BE: EF BB BF 41), and the Latin-1 spellings of the three BOMs.
+pub const BOM_LOOKALIKE_TEXT: &[&str] = &[
+    "\u{FEFF}",
+    "\u{FEFF}\u{FEFF}",
+    "\u{FFFE}",
+    "\u{BBEF}\u{BF}",
+    "\u{EFBB}\u{BF41}",
+    "\u{EF}\u{BB}\u{BF}",
+    "\u{FF}\u{FE}",
+    "\u{FE}\u{FF}",
+];
+
+/// Inserts the raw bytes of one of the three BOMs right after the file's own BOM (or at the
+/// very start). Whether the result is well-formed is for the reference codec to say.
+pub fn inject_bom_bytes(rng: &mut Rng, bom_len: usize, bytes: &[u8]) -> Vec<u8> {
+    let ins: &[u8] = match rng.below(3) {
+        0 => &[0xEF, 0xBB, 0xBF],
+        1 => &[0xFF, 0xFE],
+        _ => &[0xFE, 0xFF],
+    };
+    let mut out = bytes[..bom_len].to_vec();
+    out.extend_from_slice(ins);
+    out.extend_from_slice(&bytes[bom_len..]);
+    out
+}
+
 pub const POOLS: &[&str] = &[
     "éàüñÿÆß§±",
     "€œŠ…™",
@@ -147,6 +175,10 @@ pub const POOLS: &[&str] = &[
     "\u{A0}\u{2028}\u{85}",
     "\u{FFFD}",
     "¥‾",
+    "\u{FFFE}\u{FFFF}",
+    "\u{0}",
+    "\u{80}\u{9F}",
+    "\u{D7FF}\u{E000}\u{10FFFF}",
 ];
 
 fn non_ascii_pool(enc: &'static Encoding, rng: &mut Rng) -> Vec<char> {
@@ -414,12 +446,19 @@ pub fn encode_for(
         BomChoice::Utf16Le => (encoding_rs::UTF_16LE, true),
         BomChoice::Utf16Be => (encoding_rs::UTF_16BE, true),
     };
-    let text = if decorate_text {
+    let mut text = if decorate_text {
         let pool = non_ascii_pool(enc, rng);
         decorate(rng, text, &pool)
     } else {
         text.to_string()
     };
+    // texts whose own first bytes look like a byte-order mark (of this or another encoding)
+    if rng.chance(1, 10) {
+        let prefix = *rng.pick(BOM_LOOKALIKE_TEXT);
+        if prefix.chars().all(|c| codec::representable(enc, c)) {
+            text = format!("{prefix}{text}");
+        }
+    }
     let text = codec::make_representable(enc, &text);
     let body = match codec::ref_encode(enc, &text) {
         Ok(b) => b,
